@@ -333,17 +333,19 @@ with and controlled by this Job's uid whose name is not yet in the list -/
 theorem mem_adoptUnrecordedTasks (s : Sys) (jo : JobObj) (tasks : List Task) (t : Task) :
     t ∈ adoptUnrecordedTasks s jo tasks ↔
       t ∈ tasks ∨ ∃ p ∈ s.podCache, podTask p = some t ∧ p.jobLabel = some jo.uid ∧ p.ownerUid = some jo.uid ∧
-        ∀ t0 ∈ tasks, t0.name ≠ p.pod.name := by
+        (∀ t0 ∈ tasks, t0.name ≠ p.pod.name) ∧ (∀ r ∈ jo.job.status.tasks, r.name ≠ p.pod.name) := by
   unfold adoptUnrecordedTasks
   simp only [List.mem_append, List.mem_filterMap, List.mem_filter, mem_sortPods, Bool.and_eq_true,
     decide_eq_true_eq, Bool.not_eq_true', List.any_eq_false]
   constructor
-  · rintro (h | ⟨p, ⟨hp, ⟨h1, h2⟩, h3⟩, hpt⟩)
+  · rintro (h | ⟨p, ⟨hp, ⟨⟨h1, h2⟩, h2'⟩, h3⟩, hpt⟩)
     · exact Or.inl h
-    · exact Or.inr ⟨p, hp, hpt, h1, h3, fun t0 ht0 => by simpa using h2 t0 ht0⟩
-  · rintro (h | ⟨p, hp, hpt, h1, h3, h2⟩)
+    · exact Or.inr ⟨p, hp, hpt, h1, h3, fun t0 ht0 => by simpa using h2 t0 ht0,
+        fun r hr => by simpa using h2' r hr⟩
+  · rintro (h | ⟨p, hp, hpt, h1, h3, h2, h2'⟩)
     · exact Or.inl h
-    · exact Or.inr ⟨p, ⟨hp, ⟨h1, fun t0 ht0 => by simpa using h2 t0 ht0⟩, h3⟩, hpt⟩
+    · exact Or.inr ⟨p, ⟨hp, ⟨⟨h1, fun t0 ht0 => by simpa using h2 t0 ht0⟩,
+        fun r hr => by simpa using h2' r hr⟩, h3⟩, hpt⟩
 
 -- ---------------------------------------------------------------- syncCreateTasks
 
